@@ -514,3 +514,105 @@ func (p *Program) fieldsTyped(typeName string, pred func(types.Type) bool) []*ty
 	walk(st, 0)
 	return out
 }
+
+// funcTable: e names a package-level array / slice variable of the module that is initialised with a composite
+// literal of function literals and never written afterwards; returns the literals in order.
+func (p *Program) funcTable(info *types.Info, e ast.Expr) []*ast.FuncLit {
+	id, ok := ast.Unparen(e).(*ast.Ident)
+	if !ok {
+		return nil
+	}
+	tv, ok := info.Uses[id].(*types.Var)
+	if !ok || tv.Pkg() == nil || tv.Parent() != tv.Pkg().Scope() {
+		return nil
+	}
+	var lit *ast.CompositeLit
+	written := false
+	for _, pkg := range p.Pkgs {
+		if pkg.Types != tv.Pkg() {
+			continue
+		}
+		for _, f := range pkg.Syntax {
+			ast.Inspect(f, func(x ast.Node) bool {
+				switch y := x.(type) {
+				case *ast.ValueSpec:
+					for i, nm := range y.Names {
+						if pkg.TypesInfo.Defs[nm] == types.Object(tv) && i < len(y.Values) {
+							lit, _ = ast.Unparen(y.Values[i]).(*ast.CompositeLit)
+						}
+					}
+				case *ast.AssignStmt:
+					for _, l := range y.Lhs {
+						if rid := rootIdent(l); rid != nil && pkg.TypesInfo.Uses[rid] == types.Object(tv) {
+							written = true
+						}
+					}
+				case *ast.UnaryExpr:
+					if rid := rootIdent(y.X); y.Op == token.AND && rid != nil && pkg.TypesInfo.Uses[rid] == types.Object(tv) {
+						written = true
+					}
+				}
+				return true
+			})
+		}
+	}
+	if lit == nil || written || len(lit.Elts) == 0 {
+		return nil
+	}
+	var out []*ast.FuncLit
+	for _, el := range lit.Elts {
+		if kv, isKV := el.(*ast.KeyValueExpr); isKV {
+			el = kv.Value
+		}
+		fl, isFL := ast.Unparen(el).(*ast.FuncLit)
+		if !isFL {
+			return nil
+		}
+		out = append(out, fl)
+	}
+	return out
+}
+
+// runAllLoop: loop is `for _, f := range T { f(args) }` or `for i := 0; i < len(T); i++ { T[i](args) }` over a function
+// table T (see funcTable) whose body is that single call: every entry of the table runs, in order. Returns the
+// literals.
+func (p *Program) runAllLoop(info *types.Info, loop ast.Stmt) []*ast.FuncLit {
+	var body *ast.BlockStmt
+	var table ast.Expr
+	elemIs := func(fun ast.Expr) bool { return false }
+	switch l := loop.(type) {
+	case *ast.RangeStmt:
+		body, table = l.Body, l.X
+		if v, ok := l.Value.(*ast.Ident); ok {
+			elemIs = func(fun ast.Expr) bool {
+				id, isId := ast.Unparen(fun).(*ast.Ident)
+				return isId && info.Uses[id] != nil && info.Uses[id] == info.Defs[v]
+			}
+		}
+	case *ast.ForStmt:
+		body = l.Body
+		name, x, ok := indexLoopOver(info, l)
+		if !ok {
+			return nil
+		}
+		table = x
+		elemIs = func(fun ast.Expr) bool {
+			ix, isIx := ast.Unparen(fun).(*ast.IndexExpr)
+			return isIx && exprStr(ix.Index) == name && exprStr(ix.X) == exprStr(x)
+		}
+	default:
+		return nil
+	}
+	if body == nil || len(body.List) != 1 {
+		return nil
+	}
+	es, ok := body.List[0].(*ast.ExprStmt)
+	if !ok {
+		return nil
+	}
+	c, ok := es.X.(*ast.CallExpr)
+	if !ok || !elemIs(c.Fun) {
+		return nil
+	}
+	return p.funcTable(info, table)
+}
